@@ -103,7 +103,7 @@ class Transition:
                     return T.replay_check(chk, ob, prog, db.schema, m, S, label)
                 return rp
             for label, f in T.oracle(ex, S):
-                ob.verify(ex, label, f, describe, replay=mk_replay(label), known=getattr(T, 'known', None))
+                ob.verify(ex, label, f, describe, replay=(None if getattr(T, 'no_replay', False) else mk_replay(label)), known=getattr(T, 'known', None))
             # reachability witness, validated against the real build
             if len(ob.witnesses) < T.witness_count and ex.solver.check(*(ex.env.get('small_model', []) + margins(ex))) == z3.sat:
                 m = ex.solver.model()
